@@ -749,6 +749,10 @@ type CaseRT struct {
 	Ctor int  `json:"ctor"` // 0 NewBufferX, 1 NewSizedBufferX(Size), 2 NewReadableBufferX(nil)
 	Size int  `json:"size,omitempty"`
 	Ops  []Op `json:"ops"`
+	// Pre: values written (and the first PreReads of them read back) before a Reset(); the script proper starts on the
+	// reset buffer, which must behave like a fresh one
+	Pre      []Op `json:"pre,omitempty"`
+	PreReads int  `json:"pre_reads,omitempty"`
 }
 
 func GenRT(t *rapid.T) CaseRT {
@@ -760,12 +764,37 @@ func GenRT(t *rapid.T) CaseRT {
 	for i := 0; i < n; i++ {
 		c.Ops = append(c.Ops, genWriteOp(t, kindsAll, false))
 	}
+	if rapid.IntRange(0, 4).Draw(t, "reset") == 0 {
+		for i, k := 0, rapid.IntRange(1, 5).Draw(t, "npre"); i < k; i++ {
+			c.Pre = append(c.Pre, genWriteOp(t, kindsAll, true))
+		}
+		c.PreReads = rapid.IntRange(0, len(c.Pre)).Draw(t, "prereads")
+	}
 	return c
 }
 
 func ExecRT(c CaseRT) *vkit.Result {
 	res := &vkit.Result{}
 	bx := newBuffer(c.Ctor, c.Size)
+	if len(c.Pre) > 0 {
+		var pre []Op
+		for _, o := range c.Pre {
+			if known, err := bufWrite(bx, o); known && err == nil {
+				pre = append(pre, o)
+			}
+		}
+		for i := 0; i < c.PreReads && i < len(pre); i++ {
+			if _, err, _ := bufRead(bx, pre[i]); err != nil {
+				break
+			}
+		}
+		left := bx.Len()
+		bx.Reset()
+		if bx.Len() != 0 || len(bx.Bytes()) != 0 {
+			return res.Failf("roundtrip/Reset", "Reset() on a buffer with %d unread bytes leaves Len() = %d, len(Bytes()) = %d", left, bx.Len(), len(bx.Bytes()))
+		}
+		res.Class("script-after-reset")
+	}
 	var written []Op
 	for i, o := range c.Ops {
 		before := bx.Len()
